@@ -362,6 +362,31 @@ def replay_batch(cex):
             err = float(np.abs(bl.average() - sub.mean(axis=0)).max())
             if err > 1e-4:
                 bad[str(ids)] = err
+        # a tomogram without molecules in the middle; a table whose image ids do not come in registration order:
+        # the batch average is the molecule-count weighted mean of the per-tomogram averages
+        from acryo import SubtomogramLoader
+
+        for name in ("empty-tomogram-in-the-middle", "re-ordered-table"):
+            tomos = [rng.normal(size=(14, 14, 14)).astype(np.float32) + 10 * k for k in range(3)]
+            mols = [Molecules(rng.uniform(5, 8, size=(n, 3))) for n in ((2, 0, 3) if name.startswith("empty") else (2, 1, 3))]
+            bl = BatchLoader(order=1, scale=1.0, output_shape=(3, 3, 3))
+            for t, m in zip(tomos, mols):
+                bl.add_tomogram(t, m)
+            if name == "re-ordered-table":
+                n = len(bl.molecules)
+                bl = bl.replace(molecules=bl.molecules.subset(list(range(n))[::-1]))
+            ref = sum(SubtomogramLoader(t, m, order=1, scale=1.0, output_shape=(3, 3, 3)).average() * len(m) for t, m in zip(tomos, mols) if len(m)) / sum(len(m) for m in mols)
+            try:
+                err = float(np.abs(bl.average() - ref).max())
+                # the two half averages recombine to the full average for some split sizes (n0, n - n0)
+                hs = bl.average_split(seed=1)
+                ntot = sum(len(m) for m in mols)
+                err = max(err, min(float(np.abs((hs[0] * n0 + hs[1] * (ntot - n0)) / ntot - ref).max()) for n0 in range(1, ntot)))
+            except Exception as e:
+                bad[name] = repr(e)[:200]
+                continue
+            if err > 1e-4:
+                bad[name] = err
         return len(bad) > 0, {"max_abs_err_vs_mean_of_subtomograms": bad}
 
 
@@ -374,13 +399,15 @@ def sec_batch_average(rec, patches=None):
     xp = stubs.make_backend(API, API.np, None)
     for m in ("acryo.loader._base", "acryo.loader._batch", "acryo.loader._loader"):
         L[m].Backend = lambda *a, **k: xp
-    vals = {}
+    def val(root, row):
+        return real(f"v_{root}_{row}")
 
     def tasks_of(self, output_shape=None, backend=None):
+        # the sub-tomogram of molecule `row` cut out of tomogram `root` is one symbolic voxel v_<root>_<row>
         out = []
         for row in self.molecules.features["row"].to_list():
             a = SymArray(shape=(1, 1, 1))
-            a[0, 0, 0] = vals[row]
+            a[0, 0, 0] = val(self.image.root, row)
             out.append(a)
         return out
 
@@ -392,30 +419,47 @@ def sec_batch_average(rec, patches=None):
             self.shape = (50, 50, 50)
 
     with L.installed():
-        for ids, counts in ((["c", "a"], [3, 1]), ([5, 2], [1, 2]), ([0, 1], [2, 2]), ([1, 0, 2], [1, 3, 2])):
-            rows = []
+        # (ids, counts, row order of the final table or None): includes a tomogram without molecules that is not the last one, and
+        # tables whose image ids do not appear in registration order
+        configs = ((["c", "a"], [3, 1], None), ([5, 2], [1, 2], None), ([0, 1], [2, 2], None), ([1, 0, 2], [1, 3, 2], None),
+                   ([0, 1, 2], [2, 0, 2], None), ([0, 1], [2, 2], [2, 0, 3, 1]), ([3, 1, 2], [1, 2, 1], [3, 1, 0, 2]))
+        for ids, counts, order in configs:
+            home = {}
 
             def run():
-                vals.clear()
-                rows.clear()
+                home.clear()
                 bl = BT.BatchLoader(order=1, scale=1, output_shape=(1, 1, 1))
                 for k, n in zip(ids, counts):
                     names = [f"t{k}_{i}" for i in range(n)]
                     for nm in names:
-                        vals[nm] = real(f"v_{nm}")
-                    rows.extend(names)
+                        home[nm] = f"tomo{k}"
                     bl.add_tomogram(Img(f"tomo{k}"), MC.Molecules(np.zeros((n, 3)), None, features={"row": names}), image_id=k)
-                return bl.average()
+                if order is not None:
+                    bl = bl.replace(molecules=bl.molecules.subset(order))
+                return bl.average(), bl.average_split(seed=3, squeeze=False), bl.molecules.features["row"].to_list()
 
-            for pth in explore(run, max_paths=10):
-                tag = f"batch-average[ids={ids},counts={counts}]"
+            for pth in explore(run, max_paths=400):
+                tag = f"batch-average[ids={ids},counts={counts}" + (f",order={order}" if order else "") + "]"
                 if not pth.ok:
                     ok, det = replay_batch({})
                     rec.fact(f"{tag}/runs", False, key="C09/batch/raises", detail={"exc": repr(pth.exc)[:300], **det}, reproduced=ok)
                     continue
-                out = _obj(pth.result)
-                want = sum((vals[r].e for r in rows), z3.RealVal(0)) / len(rows)
+                out, halves, rows = pth.result
+                out = _obj(out)
+                v = [val(home[r], r).e for r in rows]
+                want = sum(v, z3.RealVal(0)) / len(rows)
                 rec.query(f"{tag}/mean-over-all-subtomograms", [], zr(out[0, 0, 0]) == want, key="C09/batch/not-the-count-weighted-mean", replay=replay_batch, twin=False)
+                # the two halves partition the molecules of the batch, each molecule cut out of its own tomogram
+                h = _obj(halves)
+                n = len(rows)
+                parts = []
+                for S in itertools.product((0, 1), repeat=n):
+                    if 0 < sum(S) < n:
+                        a = sum((x for x, s_ in zip(v, S) if s_), z3.RealVal(0)) / sum(S)
+                        b = sum((x for x, s_ in zip(v, S) if not s_), z3.RealVal(0)) / (n - sum(S))
+                        parts.append(z3.And(zr(h[0, 0, 0, 0, 0]) == a, zr(h[0, 1, 0, 0, 0]) == b))
+                if parts:
+                    rec.query(f"{tag}/split-halves-partition-the-batch", [], z3.Or(*parts), key="C09/batch/not-the-count-weighted-mean", replay=replay_batch, twin=False)
 
 
 def sections(tier):
